@@ -15,10 +15,10 @@ CLAIMED = {
          "Iterators are compared through the c18 stream; the C12n profile (no load-time comparator callback, SetCollection installs the comparator after every open) runs here too; so does the `Chain` step (a treap made a path of 66-80 nodes by caller-chosen priorities)."),
  "C08": ("Lean proof: scanRoots_revert / revertStore_prev / revertStore_none; divergence of the pinned loop; correspondence",
          "FlushRevert lands on the greatest complete root record below the current end and truncates there, or empties the store; the scan is total by structural recursion (the pinned loop is proved to diverge: defect F2, fixed). Compared on histories with many flushes/reverts/re-opens; hangs are caught by a watchdog.",
-         "FlushRevert after a FAILED Flush was defect F10 (repaired); the fault stream reverts directly after failed flushes. `c08s` sweeps the size of the flush being reverted over across every power of two from 512 to 8192."),
+         "FlushRevert after a FAILED Flush was defect F10 (repaired); the fault stream reverts directly after failed flushes. `c08s` sweeps the size of the flush being reverted over across every power of two from 512 to 8192. KNOWN FINDING F17 (known_findings.json, corpus/F17, Lean: history_refinement_fails_on_forged_root): a stored value that is a complete root record naming its own offset is taken for the previous flush - the property is known to fail there; history_refinement_partial carries the hypothesis that excludes it. Stream C08f compares FlushRevert with the SPECIFICATION (ghost stack of flushed states in the model driver), one history in three with such a value; those print KNOWN-FINDING, every other disagreement is reported. Collection names of 4100-4300 bytes (root records above 4 KiB) occur in one history in five."),
  "C10": ("Lean proof of the version/mark/reclaim protocol (safe_reachable) + heap-invariant evaluation on the real heap",
          "For every sequence of acquire/release/load/mutate events and every choice of freed nodes no node of a live version is freed. The harness evaluates the invariant clauses on the implementation's heap (free list, marks, refcounts via verif hooks) after every step of histories with snapshots, replaced/removed collections, nested visits, foreign-store churn.",
-         "Mutation is one atomic event in the abstract protocol; node identity abstracted to ids."),
+         "Mutation is one atomic event in the abstract protocol; node identity abstracted to ids. The protocol theorem presupposes that readers acquire and release the version they read: every_reader_holds_its_version decides that on the regenerated pin table."),
  "C12": ("Lean proof: Machine.refinement with SetCollection/RemoveCollection; correspondence",
          "The store refines the specification in which SetCollection keeps/creates, RemoveCollection drops, names are sorted, durability only at Flush; compared against the package on names and contents after every step and re-open.",
          "In the main profile a name always maps to the same comparator; profile C12n opens stores WITHOUT the load-time comparator callback and installs each comparator with SetCollection on the existing name (the documented pattern), so 'only installs the new comparator' is exercised with a real change. Static: cas_compares_what_was_read (regenerated Gen/Cas.lean); supplementary: no_lost_collection_update on Model CasLoop (schedules are outside C12's quantifier). Use of a REPLACED handle is use-after-close (nil dereference) and is not covered."),
@@ -57,7 +57,7 @@ CLAIMED = {
          "closed_balanced_partial assumes every node object was freed. That assumption was FALSE of the pinned code (defect F11, repaired by /repo c2c929d, replays in corpus/); for the repaired code it is supported by the model theorem nodes_all_freed_if_no_load_under_replaced, the syntactic obligation slots_loaded_before_copied (textual order within a function, not dominance) and the refbalance predicate on the histories run - not by a proof about the Go code. The event model is tied to the code only through these predicates (not an event-by-event log comparison); Get's aliasing reference is counted as the caller's; faults are outside C15's quantifier."),
  "C19": ("Lean proof: open_reads_root_only (exact read list of the scan), key-only loads never touch value bytes, flush writes tile the file; read-log checks on the implementation",
          "The model of NewStore's reads is the Go loop position by position; for files ending in a root record exactly Stat + 2 reads. Key-only traversals in any cache state read only node records and header+key ranges; records never overlap. On the implementation, every open's read list is compared exactly and every read of every key-only call (GetItem/Min/Max/visit without value, Exist, Len, Set, Delete) is checked against the value ranges of all item records ever flushed.",
-         "Value ranges are computed by the model from its own (byte-identical) file image."),
+         "Value ranges are computed by the model from its own (byte-identical) file image. Key-only block visits and key-only iterators are among the bracketed calls."),
  "C04": ("Lean proof: frame theorems of the history interpreter (snapshot_isolated, readonly_rejects, reads_change_nothing) + recycling_safe; snapshot correspondence",
          "For every operation line the model leaves untargeted stores untouched, so a snapshot keeps its value through every later history; read-only stores reject Set/Delete/Flush unchanged; Close/FlushRevert through a snapshot leave file bytes alone. The Go-side reason (shared nodes are never recycled while a version is pinned) is C10's theorem; the stream compares all open snapshots (snapshots of snapshots, any close order, removal/replacement, Close of the original) and the original after every step.",
          "After FlushRevert on the ORIGINAL, earlier snapshots are undefined (documented by the library) and are closed by the generator first."),
